@@ -8,6 +8,9 @@ import s3transfer.manager  # noqa
 
 from vlib import fakes as F
 
+# private-attribute groups (vlib/layout.py) the obligations of this module depend on
+LAYOUT = []
+
 EXPLANATION = (
     'C20: the real s3transfer.crt Python layer (CRTTransferManager, CRTTransferCoordinator, S3ClientArgsCreator, '
     'RenameTempFileHandler, AfterDoneHandler) runs against a stub awscrt package (awscrt is not installed) whose '
